@@ -122,6 +122,14 @@ func runC10(r *Runner, tier string, rng *Rng) {
 				if rng.Chance(5) {
 					p["bad name"] = "x"
 				}
+				if rng.Chance(15) {
+					// a VALUE that looks like another parameter's marker: substitution is one pass over
+					// the layout, values are never substituted themselves — and certainly not depending
+					// on the order in which the dictionary happens to be walked
+					// (seeded change c10-parameters-resolve-each-other)
+					p["PAT"] = "{UNUSED}"
+					p["UNUSED"] = rng.Pick([]string{"*", "*", "{PAT}", "nomatch-zzz"})
+				}
 			}
 			plist = append(plist, p)
 		}
